@@ -1,3 +1,286 @@
-use crate::run::{Ctx, Ev};
+//! C11 - funding settles on schedule, exactly, and is charged once per position.
+use serde_json::json;
+
+use super::engine_refs::*;
+use crate::refmodel::*;
+use crate::run::{pq_field_i, pq_u, Ctx, Ev};
+use crate::types::*;
 use crate::world::World;
-pub fn step(_ctx: &Ctx, _w: &World, _ev: &mut Ev) {}
+
+fn pay_class(p: i128, d: U) -> &'static str {
+    let m = p.unsigned_abs();
+    if m == 0 {
+        "zero"
+    } else if m < 1000 {
+        "tiny"
+    } else if m < d {
+        "sub_unit"
+    } else {
+        "large"
+    }
+}
+
+pub fn step(ctx: &Ctx, w: &World, ev: &mut Ev) {
+    if w.cfg.kind != WorldKind::Standard {
+        return;
+    }
+    let d = w.d;
+    let engine = w.addrs.engine.clone();
+    let ifund = w.addrs.insurance_fund.clone();
+    let actor = w.resolve(&ctx.step.actor);
+    match &ctx.step.op {
+        Op::PayFunding { vamm } => {
+            let v = *vamm;
+            let (a, b) = (&ctx.pre.vamms[v], &ctx.post.vamms[v]);
+            let timing = if ctx.post.time < a.next_funding { "early" } else if ctx.post.time == a.next_funding { "on_time" } else { "late" };
+            let near = (ctx.post.time as i128 - a.next_funding as i128).unsigned_abs() <= a.funding_period as u128;
+            if !ctx.out.ok {
+                ev.eval(near, &("attempt", timing, "rejected"), || json!({"pay_funding": timing, "now": ctx.post.time, "next_funding_time": a.next_funding, "accepted": false}));
+                return;
+            }
+            ev.count(&format!("settlement/{}", timing));
+            if ctx.post.time < a.next_funding {
+                ev.violation("early_settle", "early", json!({"now": ctx.post.time, "next_funding_time": a.next_funding}));
+            }
+            let (tw, ut) = match (pq_u(ctx.preq, "twap"), pq_u(ctx.preq, "utwap")) {
+                (Some(x), Some(y)) => (x, y),
+                _ => {
+                    ev.count("twap_unavailable");
+                    return;
+                }
+            };
+            let premium = match smul_div(tw as i128 - ut as i128, a.funding_period as i128, 86400) {
+                Some(x) => x,
+                None => return,
+            };
+            let dcum = b.cum - a.cum;
+            let p = match smul_div(a.size, premium, d as i128) {
+                Some(x) => x,
+                None => return,
+            };
+            ev.eval(true, &("attempt", timing, sign(premium), pay_class(p, d), sign(a.size)), || {
+                json!({"pay_funding": timing, "vamm_twap": tw.to_string(), "oracle_twap": ut.to_string(), "premium_fraction": premium.to_string(), "net_position": a.size.to_string(), "payment": p.to_string()})
+            });
+            if dcum != premium {
+                ev.violation("premium_exact", sign(premium), json!({"cumulative_delta": dcum.to_string(), "expected": premium.to_string(), "vamm_twap": tw.to_string(), "oracle_twap": ut.to_string(), "period": a.funding_period}));
+            }
+            if b.next_funding < ctx.post.time + a.funding_period / 2 {
+                ev.violation("next_time", timing, json!({"next_funding_time": b.next_funding, "now": ctx.post.time, "period": a.funding_period}));
+            }
+            let to_if = ctx.sent(&engine, &ifund);
+            let from_if = ctx.sent(&ifund, &engine);
+            let vault = ctx.pre.bal(&engine);
+            let (exp_to, exp_from) = if p > 0 { ((p as u128).min(vault), 0) } else if p < 0 { (0, p.unsigned_abs()) } else { (0, 0) };
+            if p > 0 && (p as u128) > vault {
+                ev.count("funding_payment_capped_by_vault");
+            }
+            if to_if != exp_to || from_if != exp_from {
+                ev.violation("payment_exact", &format!("{},{}", sign(p), pay_class(p, d)), json!({"payment": p.to_string(), "vault_to_insurance_fund": to_if.to_string(), "insurance_fund_to_vault": from_if.to_string(), "vault_balance": vault.to_string()}));
+            }
+        }
+        Op::Open { vamm, leverage, .. } => {
+            if !ctx.out.ok {
+                return;
+            }
+            let v = *vamm;
+            let class = match classify_open(ctx, w) {
+                Some(c) => c,
+                None => return,
+            };
+            let pos = match &class.pos {
+                Some(p) if p.size != 0 => p.clone(),
+                _ => return,
+            };
+            let f = match owed(ctx.pre, v, &actor, d) {
+                Some(x) => x,
+                None => return,
+            };
+            let cum = ctx.post.vamms[v].cum;
+            let kind = class.kind;
+            ev.eval(f != 0, &("event", kind, sign(f)), || json!({"event": kind.s(), "funding_owed": f.to_string(), "margin": pos.margin.to_string()}));
+            if f != 0 {
+                ev.count(&format!("event_with_funding/{}", kind.s()));
+            }
+            let post = ctx.post.position(v, &actor).cloned();
+            let spot_pnl = pq_field_i(ctx.preq, "pnl_spot", "unrealized_pnl").unwrap_or(0);
+            match kind {
+                OpenKind::Increase | OpenKind::Reduce => {
+                    let p2 = match post {
+                        Some(p) => p,
+                        None => return,
+                    };
+                    if p2.size != 0 && p2.checkpoint != cum {
+                        ev.violation("checkpoint_moved", kind.s(), json!({"checkpoint": p2.checkpoint.to_string(), "cumulative": cum.to_string()}));
+                    }
+                    let delta = if kind == OpenKind::Increase {
+                        mul_div(class.n, d, (*leverage).max(1)).unwrap_or(0) as i128
+                    } else {
+                        smul_div(spot_pnl, base_moved(ctx, v) as i128, pos.size.abs()).unwrap_or(0)
+                    };
+                    let exp = (pos.margin as i128 + delta - f).max(0);
+                    if p2.margin as i128 != exp {
+                        let diff = p2.margin as i128 - exp;
+                        let shape = if diff == f { "diff_eq_funding" } else if diff == -f { "charged_twice" } else { "other" };
+                        ev.violation("charge_exact", &format!("{},{},{}", kind.s(), sign(f), shape), json!({"margin_pre": pos.margin.to_string(), "margin_post": p2.margin.to_string(), "expected": exp.to_string(), "funding_owed": f.to_string()}));
+                    }
+                }
+                OpenKind::Reverse | OpenKind::DustReverse => {
+                    if let Some(p2) = &post {
+                        if p2.size != 0 && p2.checkpoint != cum {
+                            ev.violation("checkpoint_moved", kind.s(), json!({"checkpoint": p2.checkpoint.to_string(), "cumulative": cum.to_string()}));
+                        }
+                    }
+                    // settlement of the old position: the trader's net payment must account for the funding owed (cw20 worlds;
+                    // the native funds rule for reversals is the subject of C13)
+                    if w.cfg.coll.is_native() {
+                        return;
+                    }
+                    let realised = pnl(pos.dir, class.q_close, pos.notional).unwrap_or(0);
+                    let equity = pos.margin as i128 + realised - f;
+                    let fees = ctx.sent(&actor, &ifund) as i128 + ctx.sent(&actor, &w.addrs.fee_pool) as i128;
+                    let net_to_vault = ctx.sent(&actor, &engine) as i128 - ctx.sent(&engine, &actor) as i128;
+                    let new_margin = post.as_ref().map(|p| p.margin as i128).unwrap_or(0);
+                    if equity < 0 {
+                        ev.count("reverse_with_negative_equity");
+                        return;
+                    }
+                    let exp = new_margin - equity;
+                    let _ = fees;
+                    if net_to_vault != exp {
+                        let diff = exp - net_to_vault;
+                        let shape = if diff == f { "funding_not_charged" } else { "other" };
+                        ev.violation("charge_exact", &format!("{},{},{}", kind.s(), sign(f), shape), json!({"net_trader_to_vault": net_to_vault.to_string(), "expected": exp.to_string(), "old_margin": pos.margin.to_string(), "realised_pnl": realised.to_string(), "funding_owed": f.to_string(), "new_margin": new_margin.to_string()}));
+                    }
+                }
+                OpenKind::Fresh => {}
+            }
+        }
+        Op::Close { vamm, .. } => {
+            if !ctx.out.ok {
+                return;
+            }
+            let v = *vamm;
+            let pos = match ctx.pre.position(v, &actor) {
+                Some(p) if p.size != 0 => p.clone(),
+                _ => return,
+            };
+            let f = match owed(ctx.pre, v, &actor, d) {
+                Some(x) => x,
+                None => return,
+            };
+            let moved = ctx.post.vamms[v].size - ctx.pre.vamms[v].size;
+            let whole = moved == -pos.size;
+            let kind = if whole { "whole_close" } else { "partial_close" };
+            ev.eval(f != 0, &("event", kind, sign(f)), || json!({"event": kind, "funding_owed": f.to_string(), "margin": pos.margin.to_string()}));
+            if f != 0 {
+                ev.count(&format!("event_with_funding/{}", kind));
+            }
+            if whole {
+                let realised = pnl(pos.dir, quote_moved(ctx, v), pos.notional).unwrap_or(0);
+                let e = pos.margin as i128 + realised - f;
+                let paid = ctx.sent(&engine, &actor) as i128;
+                if e >= 0 && paid != e {
+                    let diff = paid - e;
+                    let shape = if diff == f { "funding_not_charged" } else if diff == -f { "charged_twice" } else { "other" };
+                    ev.violation("charge_exact", &format!("{},{},{}", kind, sign(f), shape), json!({"paid": paid.to_string(), "expected": e.to_string(), "funding_owed": f.to_string()}));
+                }
+            } else if let Some(p2) = ctx.post.position(v, &actor) {
+                let spot_pnl = pq_field_i(ctx.preq, "pnl_spot", "unrealized_pnl").unwrap_or(0);
+                let r = smul_div(spot_pnl, base_moved(ctx, v) as i128, pos.size.abs()).unwrap_or(0);
+                let exp = pos.margin as i128 + r - f;
+                if p2.margin as i128 != exp {
+                    let diff = p2.margin as i128 - exp;
+                    let shape = if diff == f { "funding_not_charged" } else if diff == -f { "charged_twice" } else { "other" };
+                    ev.violation("charge_exact", &format!("{},{},{}", kind, sign(f), shape), json!({"margin_post": p2.margin.to_string(), "expected": exp.to_string(), "funding_owed": f.to_string()}));
+                }
+                if p2.checkpoint != ctx.post.vamms[v].cum {
+                    ev.violation("checkpoint_moved", kind, json!({"checkpoint": p2.checkpoint.to_string(), "cumulative": ctx.post.vamms[v].cum.to_string()}));
+                }
+            }
+        }
+        Op::Withdraw { vamm, amount } => {
+            if !ctx.out.ok {
+                return;
+            }
+            let v = *vamm;
+            let pos = match ctx.pre.position(v, &actor) {
+                Some(p) => p.clone(),
+                None => return,
+            };
+            let f = match owed(ctx.pre, v, &actor, d) {
+                Some(x) => x,
+                None => return,
+            };
+            ev.eval(f != 0, &("event", "withdraw", sign(f)), || json!({"event": "withdraw", "funding_owed": f.to_string(), "margin": pos.margin.to_string(), "amount": amount.to_string()}));
+            if f != 0 {
+                ev.count("event_with_funding/withdraw");
+            }
+            if let Some(p2) = ctx.post.position(v, &actor) {
+                let exp = pos.margin as i128 - *amount as i128 - f;
+                if p2.margin as i128 != exp {
+                    let diff = p2.margin as i128 - exp;
+                    let shape = if diff == f { "funding_not_charged" } else if diff == -f { "charged_twice" } else { "other" };
+                    ev.violation("charge_exact", &format!("withdraw,{},{}", sign(f), shape), json!({"margin_post": p2.margin.to_string(), "expected": exp.to_string(), "funding_owed": f.to_string()}));
+                }
+                if p2.checkpoint != ctx.post.vamms[v].cum {
+                    ev.violation("checkpoint_moved", "withdraw", json!({"checkpoint": p2.checkpoint.to_string(), "cumulative": ctx.post.vamms[v].cum.to_string()}));
+                }
+            }
+        }
+        Op::Deposit { vamm, .. } => {
+            if !ctx.out.ok {
+                return;
+            }
+            let v = *vamm;
+            if let (Some(a), Some(b)) = (ctx.pre.position(v, &actor), ctx.post.position(v, &actor)) {
+                let f = owed(ctx.pre, v, &actor, d).unwrap_or(0);
+                ev.eval(f != 0, &("event", "deposit", sign(f)), || json!({"event": "deposit", "funding_owed": f.to_string()}));
+                if a.checkpoint != b.checkpoint {
+                    ev.violation("checkpoint_must_not_move", "deposit", json!({"pre": a.checkpoint.to_string(), "post": b.checkpoint.to_string()}));
+                }
+            }
+        }
+        Op::Liquidate { vamm, trader, .. } => {
+            if !ctx.out.ok {
+                return;
+            }
+            let v = *vamm;
+            let t = w.resolve(trader);
+            let pos = match ctx.pre.position(v, &t) {
+                Some(p) if p.size != 0 => p.clone(),
+                _ => return,
+            };
+            let f = match owed(ctx.pre, v, &t, d) {
+                Some(x) => x,
+                None => return,
+            };
+            match ctx.post.position(v, &t) {
+                None => {
+                    ev.eval(f != 0, &("event", "full_liquidation", sign(f)), || json!({"event": "full_liquidation", "funding_owed": f.to_string(), "margin": pos.margin.to_string()}));
+                    if f != 0 {
+                        ev.count("event_with_funding/full_liquidation");
+                    }
+                    let eng = ctx.pre.eng.clone().unwrap_or_default();
+                    let q = quote_moved(ctx, v);
+                    let half = mul_div(q, eng.liq_fee, d).unwrap_or(0) / 2;
+                    let realised = pnl(pos.dir, q, pos.notional).unwrap_or(0);
+                    let e = pos.margin as i128 + realised - f;
+                    let exp_if = (e.max(0) - half as i128).max(0);
+                    let to_if = ctx.sent(&engine, &ifund) as i128;
+                    if to_if != exp_if {
+                        let diff = to_if - exp_if;
+                        let shape = if diff == f && e - half as i128 > 0 { "funding_not_charged" } else { "other" };
+                        ev.violation("charge_exact", &format!("full_liquidation,{},{}", sign(f), shape), json!({"to_insurance_fund": to_if.to_string(), "expected": exp_if.to_string(), "funding_owed": f.to_string()}));
+                    }
+                }
+                Some(p2) => {
+                    ev.eval(f != 0, &("event", "partial_liquidation", sign(f)), || json!({"event": "partial_liquidation", "funding_owed": f.to_string()}));
+                    if p2.checkpoint != pos.checkpoint {
+                        ev.violation("checkpoint_must_not_move", "partial_liquidation", json!({"pre": pos.checkpoint.to_string(), "post": p2.checkpoint.to_string()}));
+                    }
+                }
+            }
+        }
+        _ => {}
+    }
+}
